@@ -752,7 +752,10 @@ def _composite_keystone_aperture(x, y, center_circle_diameter,
             c3 = (outer_radius, lo)
             c4 = (outer_radius, hi)
             c5 = (outer_radius, mid)
-            arr = np.array([c1, c2, c3, c4, c5])
+            # the outer arc reaches its x/y extremes where it crosses an axis,
+            # which need be neither a corner nor the midpoint
+            crossings = [(outer_radius, k*np.pi/2) for k in range(-4, 9) if lo < k*np.pi/2 < hi]
+            arr = np.array([c1, c2, c3, c4, c5] + crossings)
             rr = arr[:, 0]
             tt = arr[:, 1]
             xx, yy = polar_to_cart(rr, tt)
